@@ -14,7 +14,7 @@ Proof.
   intros Hdist Hacc. pose proof (verify_legacy_accept cfg_fixed _ _ _ Hacc) as A.
   destruct A as [aids uids pids regmap subs Hrec _ _ Hrestr _ _ _ _].
   destruct (received_assoc P aids uids pids Hrec) as [Aattr Apred].
-  unfold check_restrictions in Hrestr.
+  cbn [f_restr_revealed_first cfg_fixed] in Hrestr. unfold check_restrictions in Hrestr.
   apply bind_ok in Hrestr. destruct Hrestr as (g1 & _ & Hrestr). apply bind_ok in Hrestr. destruct Hrestr as (g2 & _ & Hrestr).
   apply bind_ok in Hrestr. destruct Hrestr as (g3 & Hit & Hip).
   unfold restr_true_legacy. apply andb_true_iff. split.
